@@ -34,6 +34,7 @@ func init() {
 			"value sets (sizes 0–3, negative numbers, dots, delimiters inside strings, strings starting with letters of the parameter name, key orders) × absent/empty/present × required × allowEmptyValue × constraint variants (min/max, enum, minItems, required properties), " +
 			"each serialised by an independent Go implementation of the OpenAPI style table (the driver re-encodes and must agree); allOf/anyOf/oneOf over pairs of leaf schemas × raw texts and × array/object values serialised for the cell (deepObject included); absence with and without other path/query parameters; " +
 			"plus a seeded stream of malformed / free carrier texts assembled from delimiters, prefixes and primitive tokens (incl. non-decimal integers, odd pair counts, wrong prefixes). " +
+			"Content-described parameters (content: {<media>: {schema}}): 4 locations × media key sets × 10 schemas × JSON and non-JSON texts × one / several / no values × required × allowEmptyValue (verdict only). " +
 			"Every header case runs twice: as a request parameter (ValidateParameter) and as a response header (ValidateResponse → validateResponseHeader). " +
 			"A case is non-trivial when the decoder is actually entered (the driver then reports cell, shape, verdict, value kind, round-trip oracle and model≠spec branches); requests with an empty PathParams map / empty query (early return) count as trivial.",
 		Exhaustive: true,
@@ -47,6 +48,7 @@ func init() {
 			"number texts with '_' digit separators, 'inf'/'nan' or hex floats are reported unsupported by the driver; texts never contain U+001F or non-ASCII characters; cookie values avoid ';', '\"', '\\' and outer spaces (net/http cookie syntax)",
 			"deepObject keys have at most three bracket segments and canonical decimal array indexes; keys whose bracket groups coincide (p[a] and p[a]zz) are order-dependent in the code: the model answers for both map orders, at most one collision of two single-valued keys per request (other shapes are reported unsupported by the driver and only run for crashes)",
 			"schemas carry no default, pattern, format other than int32, nullable or nested compositions; a schema without type carries at most an enum",
+			"content-described parameters: json.Unmarshal is trusted (the driver parses the same text with Lean's JSON parser); values are scalars, arrays of scalars or flat objects of scalars (other JSON shapes are reported unsupported by the driver); JSON texts are plain (no escapes, no exotic number spellings)",
 		},
 	})
 }
@@ -372,9 +374,51 @@ func c05RunResp(c hx.Case) any {
 	return out
 }
 
+// c05RunContent: a content-described parameter (content: {<media>: {schema}}): ValidateParameter's verdict only — the decoded
+// value of decodeContentParameter is not observable.
+func c05RunContent(c hx.Case) any {
+	name := jstr(c, "name")
+	content := openapi3.Content{}
+	for _, m := range jlist(c["media"]) {
+		mt := &openapi3.MediaType{}
+		if sm, ok := c["schema"].(map[string]any); ok {
+			mt.Schema = c05Schema(sm).NewRef()
+		}
+		ms, _ := m.(string)
+		content[ms] = mt
+	}
+	d := cloneCase(c)
+	d["schema"] = map[string]any{"k": "prim", "t": "string"}
+	_, in := c05Build(d)
+	p := &openapi3.Parameter{Name: name, In: jstr(c, "in"), Required: jbool(c, "required"), AllowEmptyValue: jbool(c, "allowEmpty"), Content: content}
+	verr := openapi3filter.ValidateParameter(context.Background(), in, p)
+	verdict := "accept"
+	if verr != nil {
+		var re *openapi3filter.RequestError
+		var se *openapi3.SchemaError
+		var me openapi3.MultiError
+		switch {
+		case !errors.As(verr, &re):
+			verdict = "other"
+		case errors.Is(re.Err, openapi3filter.ErrInvalidRequired):
+			verdict = "missing"
+		case errors.Is(re.Err, openapi3filter.ErrInvalidEmptyValue):
+			verdict = "empty"
+		case errors.As(re.Err, &se) || errors.As(re.Err, &me):
+			verdict = "schema"
+		default:
+			verdict = "other"
+		}
+	}
+	return map[string]any{"kind": verdict, "verdict": verdict, "found": nil, "value": nil, "err": nil}
+}
+
 func runC05(c hx.Case) any {
 	if jstr(c, "mode") == "resp" {
 		return c05RunResp(c)
+	}
+	if jstr(c, "mode") == "content" {
+		return c05RunContent(c)
 	}
 	p, in := c05Build(c)
 	val, found, derr := openapi3filter.VerifDecodeStyledParameter(p, in)
@@ -550,6 +594,18 @@ func cmpC05x(c hx.Case, impl any, reply map[string]any) hx.Verdict {
 	}
 	if !jbool(spec, "decode_agrees") {
 		return hx.Verdict{IM: false, IS: true, Detail: "specification decoder and round-trip oracle disagree in the driver"}
+	}
+	if jstr(c, "mode") == "content" { // verdict only
+		iv, mv, sv := jstr(im, "verdict"), jstr(model, "verdict"), jstr(spec, "verdict")
+		if iv != mv {
+			v.IM = false
+			v.Detail = fmt.Sprintf("verdict: impl %s, model %s", iv, mv)
+		}
+		if iv != sv {
+			v.IS = false
+			v.Detail = fmt.Sprintf("verdict: impl %s, specification %s; ", iv, sv) + v.Detail
+		}
+		return v
 	}
 	ierr, merr := fmt.Sprint(im["err"]), fmt.Sprint(model["err"])
 	iv, mv, sv := jstr(im, "verdict"), jstr(model, "verdict"), jstr(spec, "verdict")
@@ -1274,6 +1330,70 @@ func genC05(ctx *hx.Ctx, emit0 func(hx.Case)) {
 			q = append(q, []any{key, vals})
 		}
 		emit(c05Case(deepCl, name, sch, map[string]any{"query": q}, r.Chance(40), false))
+	}
+	// ---- H. content-described parameters: location × media keys × schema × JSON / non-JSON texts × number of values × flags
+	cSchemas := []any{c05PS("integer"), c05With(c05PS("number"), "max", 2), c05PS("string"), c05With(c05PS("string"), "enum", []any{"a", "dave"}), c05PS("boolean"),
+		map[string]any{"k": "arr", "items": c05PS("integer")}, map[string]any{"k": "arr", "items": c05PS("string"), "minItems": 2},
+		objSchemas[1], map[string]any{"k": "anyOf", "alts": []any{c05PS("integer"), c05PS("boolean")}}, nil}
+	cTexts := []string{"5", "-3", "1.5", "true", "null", "dave", "\"dave\"", "\"a\"", "[1,2]", "[\"a\",\"b\"]", "[]", "{}", "{\"a\":1}", "{\"a\":\"x\",\"b\":\"y\"}",
+		"{\"b\":\"y\"}", "a,b", "{a:1}", "[1,", "", "1 2", "[[1]]", "{\"a\":{\"z\":1}}"}
+	cMedia := [][]any{{"application/json"}, {"application/json"}, {"*/*"}, {"application/*"}, {"text/plain"}, {"application/json", "text/plain"}, {}, {"application/json; charset=utf-8"}}
+	for li, loc := range []string{"path", "query", "header", "cookie"} {
+		cl := c05Cell{loc, "", false}
+		for mi, media := range cMedia {
+			for si, sch := range cSchemas {
+				if mi >= 2 && (si+mi)%3 != 0 {
+					continue
+				}
+				for ti, txt := range cTexts {
+					if !ctx.Thorough() && mi >= 1 && (ti+si)%2 == 1 {
+						continue
+					}
+					if loc == "cookie" && !c05CookieSafe(txt) {
+						continue
+					}
+					var car map[string]any
+					switch loc {
+					case "path":
+						car = map[string]any{"path": txt}
+					case "query":
+						car = map[string]any{"query": []any{[]any{"p", []any{txt}}}}
+					case "header":
+						car = map[string]any{"header": []any{txt}}
+					default:
+						car = map[string]any{"cookie": txt}
+					}
+					c := c05Case(cl, "p", nil, car, (ti+si+li)%2 == 0, ti%5 == 0)
+					c["mode"], c["media"], c["schema"] = "content", media, sch
+					emit0(c)
+				}
+				// several values (query: array of items; header: refused), no value, absent
+				multi := [][]string{{"1", "2"}, {"a", "b"}, {"\"a\"", "\"b\""}, {"1", "x"}, {"[1]", "2"}, {"null", "1"}}
+				for vi, vs := range multi {
+					l := []any{}
+					for _, v := range vs {
+						l = append(l, v)
+					}
+					if loc == "query" {
+						c := c05Case(cl, "p", nil, map[string]any{"query": []any{[]any{"p", l}}}, vi%2 == 0, false)
+						c["mode"], c["media"], c["schema"] = "content", media, sch
+						emit0(c)
+					}
+					if loc == "header" {
+						c := c05Case(cl, "p", nil, map[string]any{"header": l}, vi%2 == 0, false)
+						c["mode"], c["media"], c["schema"] = "content", media, sch
+						emit0(c)
+					}
+				}
+				for mode := 0; mode < 3; mode++ {
+					for _, req := range bools {
+						c := c05Case(cl, "p", nil, c05AbsentCar(c05Cell{loc, "", false}, "p", mode), req, mode == 1 && req)
+						c["mode"], c["media"], c["schema"] = "content", media, sch
+						emit0(c)
+					}
+				}
+			}
+		}
 	}
 	// ---- E. compositions over pairs of leaf schemas
 	leaves := []map[string]any{c05PS("integer"), c05PS("string"), c05PS("boolean"), c05With(c05PS("integer"), "max", 6), c05PS("number"),
